@@ -28,6 +28,8 @@ class Trig (α : Type) where
   ofInt : Int → α
   /-- Python `x % m` on floats (result has the sign of `m`; only `m > 0` is used) -/
   pymod : α → α → α
+  /-- `pow(x, n)` for a small non-negative integer exponent -/
+  powi : α → Nat → α
 
 /-- Everything astral (or CPython underneath it) can raise, as the model sees it. -/
 inductive Err
